@@ -9,7 +9,17 @@ by one or more operator/flag groups with operators from '=', '+', '-' never adja
 
 Written from the sentence, not from the code: a clause is well formed when **some** cut of it gives a
 name list followed by one or more groups `op flag…`; nothing here looks for "the first operator", keeps
-a "last character", trims, or upper-cases.  Strings are lists of byte codes (ASCII).
+a "last character", trims, or upper-cases.  Strings are lists of Unicode code points (any Rust `String`;
+nothing is restricted to ASCII).
+
+What the sentence fixes about non-ASCII text: the operators `=`, `+`, `-`, the flags `e`, `i`, `p`, the
+comma and the letters of `all` are the ASCII characters the sentence prints; the "known capability names"
+are the 41 ASCII names of the table, known up to **ASCII** case (the kernel's / libcap's names are ASCII
+and libcap compares them with `strcasecmp`); hence a name that contains a non-ASCII code point — dotless
+`ı`, long `ſ`, Kelvin `K`, a full-width letter, … — is not a known name, whatever a Unicode case mapping
+would turn it into, and a clause containing one must be rejected.  Likewise a full-width `＝` is not an
+operator.  (`sameName`, `isAll`, `isOp`, `isFlag` below compare code points with ASCII codes, so this needs
+no extra clause.)
 
 ```
 text    ::= ws* clause (ws+ clause)* ws*          (at least one clause)
@@ -23,7 +33,7 @@ groups  ::= (op flag+)* op flag+                  (op ∈ {=,+,-}, flag ∈ {e,i
 The recogniser takes a `Reading` that resolves the two ambiguous points of the grammar; `strict` is the
 reading that accepts least, `lenient` the one that accepts most.  A text is
 
-* `mustAccept`  when it is well formed under the strict reading (and has no U+000B, see 3.),
+* `mustAccept`  when it is well formed under the strict reading (and has no doubtful whitespace, see 3.),
 * `mustReject`  when it is not well formed even under the lenient reading,
 * `dontcare`    in between — exactly the texts whose status depends on how one reads the sentence.
 
@@ -34,12 +44,16 @@ reading that accepts least, `lenient` the one that accepts most.  A text is
 2. **`all` as an item of a comma list** (`all,cap_chown=e`, `cap_kill,ALL+p`).  "a comma-separated list
    of known capability names (or 'all')" parses both as "(list of names) or 'all'" and as "list of
    (name or 'all')".  `Reading.allInList`.  A lone `all` is a name list under both readings.
-3. **U+000B (vertical tab)**.  "whitespace" is not defined by the sentence; the two ASCII notions in
-   Rust's own standard library differ exactly on U+000B (`char::is_whitespace` has it,
-   `u8::is_ascii_whitespace` has not).  If it is not whitespace it is an illegal character of a clause,
-   so a text containing it is never `mustAccept`; it is `mustReject` when it is ill formed even with
-   U+000B read as a separator.  Space, TAB, LF, FF, CR are whitespace under every reading.
-4. Non-ASCII text is outside this spec altogether (handled by the driver: no accept/reject demand).
+3. **Doubtful whitespace: U+000B (vertical tab) and the non-ASCII `White_Space` code points** (U+0085,
+   U+00A0, U+1680, U+2000–U+200A, U+2028, U+2029, U+202F, U+205F, U+3000).  "whitespace" is not defined
+   by the sentence; the two ASCII notions in Rust's own standard library differ exactly on U+000B
+   (`char::is_whitespace` has it, `u8::is_ascii_whitespace` has not), and whether "whitespace" means
+   ASCII whitespace (libcap's `isspace` in the C locale) or Unicode `White_Space` is equally open.  If
+   such a code point is not whitespace it is an illegal character of a clause, so a text containing one
+   is never `mustAccept`; it is `mustReject` when it is ill formed even with all of them read as
+   separators.  Space, TAB, LF, FF, CR are whitespace under every reading.  Code points that merely look
+   like blanks but do not have the `White_Space` property (U+200B zero width space, U+180E, U+FEFF, …) are
+   ordinary illegal characters.
 
 Deliberately **not** don't-care (the sentence decides them):
 * an empty item in the comma list (`,=e`, `cap_chown,=e`, `cap_chown,,cap_kill=e`): the empty string is
@@ -50,7 +64,7 @@ Deliberately **not** don't-care (the sentence decides them):
 * a capability name is "known" up to ASCII case (the table is upper case, the customary spelling is
   lower case; "case-insensitively" in the sentence) → `Cap_Chown=e` accept.
 
-In every region, including don't-care and non-ASCII: no panic, and accepted text is stored verbatim
+In every region, including don't-care: no panic, and accepted text is stored verbatim
 (the driver checks both on the implementation's observation).
 -/
 namespace RpmVerif.FileCaps.Spec
@@ -67,8 +81,18 @@ structure Reading where
 def strict : Reading := ⟨false, false⟩
 def lenient : Reading := ⟨true, true⟩
 
-/-- space, TAB, LF, VT, FF, CR (VT: see point 3 above) -/
-def isSpace (c : Nat) : Bool := c == 32 || c == 9 || c == 10 || c == 11 || c == 12 || c == 13
+/-- whitespace under every reading: space, TAB, LF, FF, CR -/
+def isSureSpace (c : Nat) : Bool := c == 32 || c == 9 || c == 10 || c == 12 || c == 13
+/-- the non-ASCII code points with the Unicode `White_Space` property (Unicode 16, PropList.txt):
+NEL, NBSP, OGHAM SPACE MARK, EN QUAD … HAIR SPACE, LINE / PARAGRAPH SEPARATOR, NARROW NBSP, MMSP,
+IDEOGRAPHIC SPACE -/
+def isUniSpace (c : Nat) : Bool :=
+  [0x85, 0xA0, 0x1680, 0x2000, 0x2001, 0x2002, 0x2003, 0x2004, 0x2005, 0x2006, 0x2007, 0x2008, 0x2009, 0x200A,
+   0x2028, 0x2029, 0x202F, 0x205F, 0x3000].contains c
+/-- whitespace under some reading only (point 3 above): VT and the non-ASCII `White_Space` code points -/
+def isDoubtfulSpace (c : Nat) : Bool := c == 11 || isUniSpace c
+/-- whitespace under the most generous reading -/
+def isSpace (c : Nat) : Bool := isSureSpace c || isDoubtfulSpace c
 /-- `=`, `+`, `-` -/
 def isOp (c : Nat) : Bool := c == 61 || c == 43 || c == 45
 /-- `e`, `i`, `p` -/
@@ -123,7 +147,7 @@ def words (s : Str) : List Str := (fields isSpace s).filter (fun w => !w.isEmpty
 def wf (r : Reading) (s : Str) : Bool := !(words s).isEmpty && (words s).all (clause r)
 
 /-- well formed under every reading of the sentence: must be accepted -/
-def WellFormed (s : Str) : Prop := wf strict s = true ∧ 11 ∉ s
+def WellFormed (s : Str) : Prop := wf strict s = true ∧ s.all (fun c => !isDoubtfulSpace c) = true
 /-- well formed under some reading: may be accepted; `¬ Admissible` must be rejected -/
 def Admissible (s : Str) : Prop := wf lenient s = true
 /-- the region where the sentence does not decide -/
@@ -142,7 +166,8 @@ def demand (s : Str) : Demand :=
 
 /-- why a text is in the don't-care region (label for the driver's histogram) -/
 def dontcareWhy (s : Str) : String :=
-  if s.contains 11 && wf strict s then "vt"
+  if s.any isUniSpace && wf strict s then "unicode-ws"
+  else if s.contains 11 && wf strict s then "vt"
   else if wf ⟨true, false⟩ s then "flagless-group"
   else if wf ⟨false, true⟩ s then "all-in-list"
   else "flagless+all-in-list"
